@@ -26,7 +26,11 @@ def run(ctx):
     ctx.rule += ("; [requires]: physical UInt/Int/Bcd/unsigned-enum fields (struct level and inside bits) and alias / +- virtual fields "
                  "(own requirement and/or one on the backing field, also inside an anonymous bits and on a Bcd) with 1..3 clauses out of "
                  "< <= > >= != ==; values at and around every clause constant, their images through the transform, range edges +-1")
-    ctx.assumptions = ["[requires] is checked against the Python SPEC only (CouldWriteValue = representable && requires && backing field's "
+    ctx.rule += ("; every accessor of a 2/4/8-byte container, and a third of the others, is written a second time through views with "
+                 "static alignment A in {2,4,8} placed at an address k mod A (same buffers and values)")
+    ctx.assumptions = ["aligned_writes_agree (observed, not proved): Write{Little,Big}EndianUInt of the alignment-specialised MemoryAccessor "
+                       "templates compute the same function as the unaligned ones (one store per byte order in the model)",
+                       "[requires] is checked against the Python SPEC only (CouldWriteValue = representable && requires && backing field's "
                        "requires of the inverse image; TryToWrite = that && bytes present): the Coq model carries the validator as an "
                        "abstract predicate (could_write_requires) and does not model the generated expression code (C01)",
                        "Float: bit pattern only (the C++ driver builds the float by memcpy from the pattern)"]
@@ -198,7 +202,7 @@ def requires_writes(ctx):
     """physical UInt/Int/Bcd/enum fields (struct level and inside bits) carrying [requires: ...]"""
     mods = gen_bits.build_requires_plan(ctx.rng, thorough=ctx.thorough())
     n_viol, n_eval = len(ctx.violations), ctx.evaluations
-    cases, n_bad, failures = c02.evaluate(ctx, mods, "both", "requires")
+    cases, n_bad, failures = c02.evaluate(ctx, mods, "both", "requires", aligned=False)
     decided = 0
     for _, _, obj in cases:
         acc = obj["acc"]
